@@ -240,8 +240,67 @@ fn check_item(m: &MetricItem) -> Result<(), String> {
     Ok(())
 }
 
+/// Rules whose numeric fields sit at the edges of what the field type and JSON numbers can carry
+/// (2^53 and 2^63/2^64 neighbourhoods, the largest and smallest finite doubles, integer maxima):
+/// a serialiser that takes a short-cut through another number type loses exactly these.
+pub fn numeric_extremes() -> Vec<AnyRule> {
+    let mut v = vec![];
+    let f64s = [
+        9007199254740993.0, // 2^53 + 1 (rounds to even)
+        9223372036854775807.0,
+        9.3e18,
+        1.8446744073709552e19,
+        1e19,
+        1e20,
+        1e300,
+        f64::MAX,
+        f64::MIN_POSITIVE,
+        5e-324,
+        0.1 + 0.2,
+        1e-7,
+        123456789.12345679,
+        -0.0,
+        -1e19,
+    ];
+    for (i, x) in f64s.iter().enumerate() {
+        v.push(AnyRule::Flow(flow::Rule { id: format!("xf{}", i), resource: "c18-res".into(), threshold: *x, ..Default::default() }));
+        v.push(AnyRule::Cb(cb::Rule { id: format!("xc{}", i), resource: "c18-res".into(), strategy: cb::BreakerStrategy::ErrorRatio, retry_timeout_ms: 100, min_request_amount: 1, stat_interval_ms: 1000, threshold: *x, ..Default::default() }));
+        v.push(AnyRule::Sys(system::Rule { id: format!("xs{}", i), metric_type: system::MetricType::InboundQPS, threshold: *x, ..Default::default() }));
+    }
+    let u32s = [u32::MAX, u32::MAX - 1, 1 << 31, (1 << 31) - 1, 65536];
+    for (i, x) in u32s.iter().enumerate() {
+        v.push(AnyRule::Flow(flow::Rule { id: format!("xfu{}", i), resource: "c18-res".into(), threshold: 1.0, stat_interval_ms: *x, max_queueing_time_ms: *x, warm_up_period_sec: *x, warm_up_cold_factor: *x, ..Default::default() }));
+        v.push(AnyRule::Cb(cb::Rule { id: format!("xcu{}", i), resource: "c18-res".into(), strategy: cb::BreakerStrategy::SlowRequestRatio, retry_timeout_ms: *x, min_request_amount: *x as u64, stat_interval_ms: *x, stat_sliding_window_bucket_count: *x, max_allowed_rt_ms: *x as u64, threshold: 0.5, ..Default::default() }));
+        v.push(AnyRule::Iso(isolation::Rule { id: format!("xi{}", i), resource: "c18-res".into(), threshold: *x, ..Default::default() }));
+    }
+    let u64s = [u64::MAX, u64::MAX - 1, 1 << 63, (1 << 63) - 1, (1 << 53) + 1, 1 << 32];
+    for (i, x) in u64s.iter().enumerate() {
+        let mut items = std::collections::HashMap::new();
+        items.insert("a".to_string(), *x);
+        v.push(AnyRule::Hs(hotspot::Rule {
+            id: format!("xh{}", i),
+            resource: "c18-res".into(),
+            metric_type: hotspot::MetricType::QPS,
+            control_strategy: hotspot::ControlStrategy::Reject,
+            threshold: *x,
+            max_queueing_time_ms: *x,
+            burst_count: *x,
+            duration_in_sec: *x,
+            params_max_capacity: *x as usize,
+            param_index: [isize::MAX, isize::MIN, -1, 0, 1 << 40, -(1 << 40)][i],
+            specific_items: items,
+            ..Default::default()
+        }));
+        v.push(AnyRule::Flow(flow::Rule { id: format!("xfv{}", i), resource: "c18-res".into(), threshold: 1.0, calculate_strategy: flow::CalculateStrategy::MemoryAdaptive, low_mem_usage_threshold: *x, high_mem_usage_threshold: *x, mem_low_water_mark: *x, mem_high_water_mark: *x, ..Default::default() }));
+        v.push(AnyRule::Cb(cb::Rule { id: format!("xcv{}", i), resource: "c18-res".into(), strategy: cb::BreakerStrategy::SlowRequestRatio, retry_timeout_ms: 100, min_request_amount: *x, stat_interval_ms: 1000, max_allowed_rt_ms: *x, threshold: 0.5, ..Default::default() }));
+    }
+    v
+}
+
 pub fn run(o: &Opts, stats: &mut Stats) -> Option<usize> {
-    let cases: Vec<AnyRule> = all_cases().into_iter().filter(finite).collect();
+    let mut cases: Vec<AnyRule> = all_cases().into_iter().filter(finite).collect();
+    let base_len = cases.len();
+    cases.extend(numeric_extremes());
     if let Some(path) = &o.replay {
         let v: Value = serde_json::from_str(&std::fs::read_to_string(path).unwrap()).unwrap();
         let r = if let Some(i) = v["config"]["case"].as_u64() {
@@ -264,13 +323,14 @@ pub fn run(o: &Opts, stats: &mut Stats) -> Option<usize> {
     let mut cnt = Counts { docs: 0, truncations: 0, not_serialisable: 0 };
     let stride = if o.thorough { 1 } else { 9 };
     for (i, c) in cases.iter().enumerate() {
-        if !o.mine(i) || i % stride != 0 {
+        if !o.mine(i) || (i % stride != 0 && i < base_len) {
             continue;
         }
         let ni = i % NAMES.len();
         let c2 = with_name(c, NAMES[ni]);
         // enforcement differential and every-byte truncation on a subset (quick: 1 in 10 of the visited)
-        let deep = o.thorough || (i / stride) % 10 == 0;
+        // the numeric extremes are round-tripped only (an entry under a rule with u32::MAX buckets is C12's subject)
+        let deep = i < base_len && (o.thorough || (i / stride) % 10 == 0);
         set_now_cfg(json!({"case": i, "name": ni, "rule": format!("{:?}", c2)}).to_string());
         stats.configs += 1;
         stats.executions += 1;
